@@ -8,8 +8,10 @@ import props, na
 ids = [json.loads(l)["id"] for l in open(os.path.join(HERE, "properties.jsonl"))]
 checks = []
 for pid in ids:
-    if pid not in props.PROPS:
+    if pid not in props.PROPS or pid not in props.CLAIMED:
         continue
+    if pid in props.BROKEN:
+        sys.exit("bounded module of %s does not import: %s" % (pid, props.BROKEN[pid]))
     P = props.PROPS[pid]
     M = P["manifest"]
     checks.append({
@@ -25,7 +27,7 @@ for pid in ids:
     })
 nas = []
 for pid in ids:
-    if pid in props.PROPS:
+    if pid in props.PROPS and pid in props.CLAIMED:
         continue
     nas.append({"property_id": pid, "reason": na.REASONS.get(pid, "check not built yet (see DESIGN.md section 5 for the plan)")})
 m = {
